@@ -16,7 +16,8 @@ EXTENDS Naturals, Sequences, FiniteSets, TLC, Json
 Langs == {"python", "typescript", "rust"}
 \* value ids; the concrete spelling per language is the harness's table
 \*  1: 7   2: 37   3: 4200   4: 3.14   5: 0x2A (= 42)   6: 1_000_000   7: 1e6   8: 100_i32 (rust only)   9: 250
-Values == 1..9
+\*  10: 0x1f4 (= 500; lowercase hex whose tail looks like a Rust type suffix: f + digits)
+Values == 1..10
 IsSmallInt(v, maxSmall) == (v = 1 /\ 7 <= maxSmall)          \* only value 7 is a candidate small integer
 ValueOk(lang, v) == v # 8 \/ lang = "rust"
 
